@@ -1,10 +1,17 @@
 #!/usr/bin/env python3
 """Regenerates the table of seeded changes in DESIGN.md (between SEEDED-BEGIN / SEEDED-END) from seeded/*/meta.json."""
 import json, os, re
-rows, missed = [], 0
+rows, missed, undetected = [], 0, 0
 for name in sorted(os.listdir('/verif/seeded')):
     m = json.load(open('/verif/seeded/%s/meta.json' % name))
     h = m['history'].strip()
+    if not m['caught_by_checks']:
+        undetected += 1
+        fr = re.sub(r'\s+', ' ', h.split(';')[0])
+        if len(fr) > 220:
+            fr = fr[:217] + '...'
+        rows.append('| %s | %s | **none** | %s |' % (name, m['breaks_property'], fr.replace('|', '\\|')))
+        continue
     if h.startswith('caught as built'):
         fr = 'caught'
     else:
@@ -17,13 +24,14 @@ n = len(rows)
 s = open('/verif/DESIGN.md').read()
 a, b = s.index('<!-- SEEDED-BEGIN -->'), s.index('<!-- SEEDED-END -->')
 body = '''<!-- SEEDED-BEGIN -->
-%d changes were written in seven rounds by fresh sub-agents that saw only the property
+%d changes were written in eight rounds by fresh sub-agents that saw only the property
 text and a scratch worktree under `/tmp` (nothing from `/verif`).  Each was confirmed
 with `seedtest.py` (demonstration passes without the patch; with the patch the whole
 suite passes and the demonstration fails); the checks then ran against a second scratch
 worktree carrying the patch (`VERIF_REPO=<dir> ./check <id>`; the first rounds applied the
-patch to `/repo` and undid it straight afterwards) -- `/repo` never keeps one.  **All %d
-are caught with a natively replayed `VIOLATION`; %d were not caught on the first run**
+patch to `/repo` and undid it straight afterwards) -- `/repo` never keeps one.  **%d
+are caught with a natively replayed `VIOLATION`, %d is not detected (the check exits 2:
+its harnesses no longer compile against the change); %d were not caught on the first run**
 (missed, found only symbolically, found only by a sibling check, or the encoder stopped
 with an error, which is exit 2 and not a detection) and each of those led to a
 strengthening that stays in the registered check (full story in each `meta.json`):
@@ -32,7 +40,7 @@ strengthening that stays in the registered check (full story in each `meta.json`
 |---------------|----------|-----------|-----------|
 %s
 
-''' % (n, n, missed, '\n'.join(rows))
+''' % (n, n - undetected, undetected, missed, '\n'.join(rows))
 s = s[:a] + body + s[b:]
 s = re.sub(r'/verif/seeded/<name>/ +\d+ seeded changes', '/verif/seeded/<name>/                %d seeded changes' % n, s)
 open('/verif/DESIGN.md', 'w').write(s)
